@@ -99,7 +99,7 @@ Qed.
 (* the three puts + lastHeight *)
 Definition pure_insert (s : ist) (b : eblock) : ist :=
   set_caches s (aput (eid b) (eh b) (i_id2h s)) (aput (eh b) b (i_h2b s))
-             (put_txs (eh b) 0 (etxs b) (i_tx s)) (Some (eh b)).
+             (put_txs (eh b) 0 (etxs b) (i_tx s)) (hmax (i_last s) (eh b)).
 
 Lemma put_txs_notin h l : forall i0 m t, ~ In t l -> aget t (put_txs h i0 l m) = aget t m.
 Proof.
@@ -171,7 +171,7 @@ Proof.
 Qed.
 
 Lemma insert_cache_spec U s b : chain_wf U -> In b U -> Coh U s ->
-  Coh U (insert_cache s b) /\ i_last (insert_cache s b) = Some (eh b) /\
+  Coh U (insert_cache s b) /\ i_last (insert_cache s b) = hmax (i_last s) (eh b) /\
   i_W (insert_cache s b) = i_W s /\ i_db (insert_cache s b) = i_db s /\
   (forall k, aget k (i_h2b (insert_cache s b)) =
              if k =? eh b then Some b else if evicted s b k then None else aget k (i_h2b s)).
@@ -179,18 +179,20 @@ Proof.
   intros Hwf HbU Hc. unfold insert_cache.
   set (s1 := if i_W s <=? eh b then _ else s).
   assert (H1 : Coh U s1 /\ (forall k, aget k (i_h2b s1) = if evicted s b k then None else aget k (i_h2b s)) /\
-               i_W s1 = i_W s /\ i_db s1 = i_db s).
+               i_W s1 = i_W s /\ i_db s1 = i_db s /\ i_last s1 = i_last s).
   { unfold s1, evicted. destruct (i_W s <=? eh b); cbn [andb]; [|auto].
-    destruct (i_last s) as [l|].
+    destruct (i_last s) as [l|] eqn:El.
     - destruct (eh b =? l + 1).
-      + destruct (evict_spec U s (eh b - i_W s) Hwf Hc) as [Ha [Hb [_ [Hd He]]]]. auto.
-      + destruct (evict_many_spec U (filter (fun k => k <=? eh b - i_W s) (akeys (i_h2b s))) s Hwf Hc) as [Ha [Hb [_ [Hd He]]]].
-        split; [exact Ha|]. split; [|auto]. intros k. rewrite Hb, memN_filter.
+      + destruct (evict_spec U s (eh b - i_W s) Hwf Hc) as [Ha [Hb [Hl [Hd He]]]].
+        split; [exact Ha|]. split; [exact Hb|]. split; [exact Hd|]. split; [exact He | congruence].
+      + destruct (evict_many_spec U (filter (fun k => k <=? eh b - i_W s) (akeys (i_h2b s))) s Hwf Hc) as [Ha [Hb [Hl [Hd He]]]].
+        split; [exact Ha|]. split; [|split; [exact Hd|]; split; [exact He | congruence]]. intros k. rewrite Hb, memN_filter.
         destruct (k <=? eh b - i_W s); cbn [andb]; [|reflexivity].
         destruct (memN k (akeys (i_h2b s))) eqn:Em; [reflexivity|].
         apply aget_None_keys. intros H. apply memN_In in H. congruence.
-    - destruct (evict_spec U s (eh b - i_W s) Hwf Hc) as [Ha [Hb [_ [Hd He]]]]. auto. }
-  destruct H1 as [Hc1 [Hh1 [HW1 Hd1]]].
+    - destruct (evict_spec U s (eh b - i_W s) Hwf Hc) as [Ha [Hb [Hl [Hd He]]]].
+      split; [exact Ha|]. split; [exact Hb|]. split; [exact Hd|]. split; [exact He | congruence]. }
+  destruct H1 as [Hc1 [Hh1 [HW1 [Hd1 Hl1]]]]. rewrite <- Hl1.
   change (set_caches s1 _ _ _ _) with (pure_insert s1 b).
   split; [apply pure_insert_coh; assumption|]. split; [reflexivity|]. split; [exact HW1|]. split; [exact Hd1|].
   intros k. cbn [pure_insert set_caches i_h2b]. rewrite aget_aput, Hh1. reflexivity.
@@ -222,11 +224,78 @@ Proof.
 Qed.
 
 (* ------------------------------------------------------------------ the representation invariant *)
-Definition last_height (bs : list eblock) : option N :=
-  match rev bs with [] => None | b :: _ => Some (eh b) end.
+(* the highest notified height (the indexer's lastHeight never moves backwards) *)
+Definition top_height (bs : list eblock) : option N := fold_left hmax (map eh bs) None.
 
-Lemma last_height_app bs b : last_height (bs ++ [b]) = Some (eh b).
-Proof. unfold last_height. rewrite rev_unit. reflexivity. Qed.
+Lemma top_height_app bs b : top_height (bs ++ [b]) = hmax (top_height bs) (eh b).
+Proof. unfold top_height. rewrite map_app, fold_left_app. reflexivity. Qed.
+
+Lemma hmax_fold_spec l : forall o L,
+  (forall x, In x l -> x <= L) -> (forall a, o = Some a -> a <= L) -> (In L l \/ o = Some L) ->
+  fold_left hmax l o = Some L.
+Proof.
+  induction l as [|x r IH]; intros o L Hall Ho Hin; cbn [fold_left].
+  - destruct Hin as [[]|H]; exact H.
+  - apply IH.
+    + intros y Hy. apply Hall. right. exact Hy.
+    + intros a Ha. unfold hmax in Ha. destruct o as [c|].
+      * destruct (c <? x) eqn:E; injection Ha as <-; [apply Hall; left; reflexivity | apply Ho; reflexivity].
+      * injection Ha as <-. apply Hall. left. reflexivity.
+    + destruct Hin as [[->|Hin]|Hin]; [|left; exact Hin|].
+      * right. unfold hmax. destruct o as [c|]; [|reflexivity]. specialize (Ho c eq_refl).
+        destruct (c <? L) eqn:E; [reflexivity|]. f_equal. lia.
+      * right. subst o. unfold hmax. assert (x <= L) by (apply Hall; left; reflexivity).
+        destruct (L <? x) eqn:E; [f_equal; lia | reflexivity].
+Qed.
+
+Lemma hmax_fold_inv l : forall o m, fold_left hmax l o = Some m ->
+  (In m l \/ o = Some m) /\ (forall x, In x l -> x <= m) /\ (forall a, o = Some a -> a <= m).
+Proof.
+  induction l as [|x r IH]; intros o m H; cbn [fold_left] in H.
+  - split; [right; exact H|]. split; [intros x []|]. intros a Ha. rewrite Ha in H. injection H as <-. lia.
+  - apply IH in H. destruct H as [H1 [H2 H3]].
+    assert (Hx : x <= m /\ (forall a, o = Some a -> a <= m) /\ (hmax o x = Some m -> x = m \/ o = Some m)).
+    { unfold hmax in *. destruct o as [c|].
+      - destruct (c <? x) eqn:E.
+        + specialize (H3 x eq_refl). split; [lia|]. split; [intros a Ha; injection Ha as <-; lia|].
+          intros Hm. injection Hm as ->. left. reflexivity.
+        + specialize (H3 c eq_refl). split; [lia|]. split; [intros a Ha; injection Ha as <-; lia|].
+          intros Hm. right. exact Hm.
+      - specialize (H3 x eq_refl). split; [lia|]. split; [discriminate|].
+        intros Hm. injection Hm as ->. left; reflexivity. }
+    destruct Hx as [Hx1 [Hx2 Hx3]]. split; [|split].
+    + destruct H1 as [H1|H1]; [left; right; exact H1|].
+      destruct (Hx3 H1) as [->|Ho]; [left; left; reflexivity | right; exact Ho].
+    + intros y [<-|Hy]; [exact Hx1 | apply H2; exact Hy].
+    + exact Hx2.
+Qed.
+
+(* top_height is the maximum of the notified heights *)
+Lemma top_height_spec bs m :
+  top_height bs = Some m <-> (exists b, In b bs /\ eh b = m) /\ (forall x, In x bs -> eh x <= m).
+Proof.
+  unfold top_height. split.
+  - intros H. apply hmax_fold_inv in H. destruct H as [[H1|H1] [H2 _]]; [|discriminate].
+    split.
+    + apply in_map_iff in H1. destruct H1 as [b [Hb1 Hb2]]. exists b. auto.
+    + intros x Hx. apply H2. apply in_map. exact Hx.
+  - intros [[b [Hb1 Hb2]] Hall]. apply hmax_fold_spec.
+    + intros x Hx. apply in_map_iff in Hx. destruct Hx as [y [<- Hy]]. apply Hall. exact Hy.
+    + discriminate.
+    + left. rewrite <- Hb2. apply in_map. exact Hb1.
+Qed.
+
+Lemma top_height_none bs : top_height bs = None <-> bs = [].
+Proof.
+  split; [|intros ->; reflexivity]. destruct bs as [|b r]; [reflexivity|]. intros H. exfalso.
+  unfold top_height in H. cbn [map fold_left hmax] in H.
+  destruct (fold_left hmax (map eh r) (Some (eh b))) as [m|] eqn:E; [discriminate|].
+  clear H. revert E. generalize (eh b). induction (map eh r) as [|x l IH]; intros a E; cbn [fold_left hmax] in E; [discriminate|].
+  destruct (a <? x); eapply IH; exact E.
+Qed.
+
+Lemma top_height_In bs l : top_height bs = Some l -> exists x, In x bs /\ eh x = l.
+Proof. intros H. apply top_height_spec in H. tauto. Qed.
 
 Record Rep (W : N) (U bs : list eblock) (s : ist) : Prop := mkRep {
   r_W : i_W s = W;
@@ -235,16 +304,10 @@ Record Rep (W : N) (U bs : list eblock) (s : ist) : Prop := mkRep {
   r_h2b : forall k x, aget k (i_h2b s) = Some x <->
             In x bs /\ eh x = k /\ exists l, i_last s = Some l /\ k <= l /\ l < k + W;
   r_le : forall x, In x bs -> exists l, i_last s = Some l /\ eh x <= l;
-  r_last : i_last s = last_height bs;
+  r_last : i_last s = top_height bs;
   r_db : forall k, aget k (i_db s) = aget k (i_h2b s);
   r_nd : NoDup (akeys (i_db s))
 }.
-
-Lemma last_height_In bs l : last_height bs = Some l -> exists x, In x bs /\ eh x = l.
-Proof.
-  unfold last_height. destruct (rev bs) as [|b r] eqn:E; [discriminate|]. intros H. injection H as <-.
-  exists b. split; [|reflexivity]. apply in_rev. rewrite E. left. reflexivity.
-Qed.
 
 Lemma rep_init W U : Rep W U [] (init W).
 Proof.
@@ -262,26 +325,38 @@ Qed.
 Lemma coh_set_db U s d : Coh U s -> Coh U (set_db s d).
 Proof. intros [H1 H2 H3]. constructor; assumption. Qed.
 
-Lemma rep_notify W U bs s b :
-  W <> 0 -> chain_wf U -> In b U -> (forall l, i_last s = Some l -> l <= eh b) ->
-  Rep W U bs s -> Rep W U (bs ++ [b]) (notify s b).
+(* a notification that is not ignored: at or above the last height, or below it but inside the window *)
+Lemma rep_notify_live W U bs s b consec :
+  W <> 0 -> chain_wf U -> In b U -> stale s b = false ->
+  consec = match i_last s with None => true | Some l => eh b =? l + 1 end ->
+  Rep W U bs s -> Rep W U (bs ++ [b]) (store_block (insert_cache s b) b consec).
 Proof.
-  intros HW0 Hwf HbU Hmono [HW Hc Hsub Hh Hle Hlast Hdb Hnd].
+  intros HW0 Hwf HbU Hlive Hconsec [HW Hc Hsub Hh Hle Hlast Hdb Hnd].
   destruct (insert_cache_spec U s b Hwf HbU Hc) as [Hc1 [Hl1 [HW1 [Hd1 Hh1]]]].
-  unfold notify, store_block. set (c := insert_cache s b) in *.
-  set (consec := match i_last s with None => true | Some l => eh b =? l + 1 end).
+  unfold store_block. set (c := insert_cache s b) in *.
   rewrite HW1, HW, Hd1.
   (* old cache keys are inside the old window *)
   assert (Hold : forall k x, aget k (i_h2b s) = Some x -> exists l, i_last s = Some l /\ k <= l /\ l < k + W).
   { intros k x Hx. apply Hh in Hx. tauto. }
-  assert (HF : forall k, aget k (i_h2b c) = if k =? eh b then Some b else if eh b <? k + W then aget k (i_h2b s) else None).
+  (* the new last height *)
+  assert (HL : exists L, hmax (i_last s) (eh b) = Some L /\ eh b <= L /\ L < eh b + W /\
+                 (forall l, i_last s = Some l -> l <= L /\ (L = l \/ (L = eh b /\ l < eh b)))).
+  { unfold stale in Hlive. rewrite HW in Hlive. unfold hmax. destruct (i_last s) as [l|].
+    - destruct (l <? eh b) eqn:E.
+      + exists (eh b). split; [reflexivity|]. split; [lia|]. split; [lia|]. intros l' Hl'. injection Hl' as <-. lia.
+      + exists l. split; [reflexivity|]. split; [lia|]. split.
+        * destruct (eh b <? l) eqn:E1; destruct (W <=? l - eh b) eqn:E2; cbn [andb] in Hlive; try discriminate; lia.
+        * intros l' Hl'. injection Hl' as <-. lia.
+    - exists (eh b). split; [reflexivity|]. split; [lia|]. split; [lia|]. discriminate. }
+  destruct HL as [L [HL [HL1 [HL2 HL3]]]]. rewrite HL in Hl1.
+  assert (HF : forall k, aget k (i_h2b c) = if k =? eh b then Some b else if L <? k + W then aget k (i_h2b s) else None).
   { intros k. rewrite Hh1. destruct (k =? eh b) eqn:Ek; [reflexivity|]. unfold evicted. rewrite HW.
     destruct (aget k (i_h2b s)) as [x|] eqn:Ex.
-    - destruct (Hold k x Ex) as [l [Hl [Hkl Hlk]]]. rewrite Hl. specialize (Hmono l Hl).
-      destruct (eh b =? l + 1) eqn:Ec; destruct (W <=? eh b) eqn:EW; destruct (eh b <? k + W) eqn:Ew; cbn [andb];
+    - destruct (Hold k x Ex) as [l [Hl [Hkl Hlk]]]. rewrite Hl. destruct (HL3 l Hl) as [HL4 HL5].
+      destruct (eh b =? l + 1) eqn:Ec; destruct (W <=? eh b) eqn:EW; destruct (L <? k + W) eqn:Ew; cbn [andb];
         try reflexivity; try (destruct (k =? eh b - W) eqn:E1; try reflexivity; lia);
         try (destruct (k <=? eh b - W) eqn:E1; try reflexivity; lia).
-    - destruct (_ && _); destruct (eh b <? k + W); reflexivity. }
+    - destruct (_ && _); destruct (L <? k + W); reflexivity. }
   constructor; cbn [set_db i_W i_h2b i_last i_db i_id2h i_tx].
   - congruence.
   - apply coh_set_db. exact Hc1.
@@ -289,42 +364,70 @@ Proof.
   - intros k x. rewrite HF, Hl1. destruct (k =? eh b) eqn:Ek.
     + apply N.eqb_eq in Ek. subst k. split.
       * intros H. injection H as <-. split; [apply in_or_app; right; left; reflexivity|]. split; [reflexivity|].
-        exists (eh b). split; [reflexivity | lia].
+        exists L. split; [reflexivity | lia].
       * intros [Hx [Hxk _]]. f_equal. apply (wf_h U Hwf); auto.
         apply in_app_or in Hx. destruct Hx as [Hx|[<-|[]]]; auto.
-    + apply N.eqb_neq in Ek. destruct (eh b <? k + W) eqn:Ew.
+    + apply N.eqb_neq in Ek. destruct (L <? k + W) eqn:Ew.
       * rewrite Hh. split.
         -- intros [Hx [Hxk [l [Hl [Hkl Hlk]]]]]. split; [apply in_or_app; left; exact Hx|]. split; [exact Hxk|].
-           exists (eh b). specialize (Hmono l Hl). split; [reflexivity | lia].
+           exists L. destruct (HL3 l Hl) as [HL4 _]. split; [reflexivity | lia].
         -- intros [Hx [Hxk [l' [Hl' [Hkl Hlk]]]]]. injection Hl' as <-.
            apply in_app_or in Hx. destruct Hx as [Hx|[<-|[]]]; [|congruence].
            split; [exact Hx|]. split; [exact Hxk|]. destruct (Hle x Hx) as [l [Hl Hxl]]. exists l.
-           specialize (Hmono l Hl). split; [exact Hl | lia].
+           destruct (HL3 l Hl) as [HL4 _]. split; [exact Hl | lia].
       * split; [discriminate|]. intros [_ [_ [l' [Hl' [Hkl Hlk]]]]]. injection Hl' as <-. lia.
-  - intros x Hx. exists (eh b). split; [exact Hl1|]. apply in_app_or in Hx. destruct Hx as [Hx|[<-|[]]]; [|lia].
-    destruct (Hle x Hx) as [l [Hl Hxl]]. specialize (Hmono l Hl). lia.
-  - rewrite Hl1, last_height_app. reflexivity.
+  - intros x Hx. exists L. split; [exact Hl1|]. apply in_app_or in Hx. destruct Hx as [Hx|[<-|[]]]; [|lia].
+    destruct (Hle x Hx) as [l [Hl Hxl]]. destruct (HL3 l Hl) as [HL4 _]. lia.
+  - rewrite Hl1, top_height_app, <- Hlast. symmetry. exact HL.
   - intros k. rewrite HF.
     assert (Hd2 : forall k, aget k (if W <=? eh b then adel (eh b - W) (aput (eh b) b (i_db s)) else aput (eh b) b (i_db s)) =
              if (W <=? eh b) && (k =? eh b - W) then None else if k =? eh b then Some b else aget k (i_db s)).
     { intros k'. destruct (W <=? eh b); cbn [andb]; [|apply aget_aput].
       rewrite aget_adel, aget_aput, (N.eqb_sym (eh b - W) k'). reflexivity. }
     destruct (negb consec && (W <? eh b)) eqn:Ef.
-    + rewrite aget_afilter, Hd2, Hdb. unfold consec in Ef.
-      destruct (i_last s) as [l|] eqn:El; [|discriminate]. specialize (Hmono l eq_refl).
+    + rewrite aget_afilter, Hd2, Hdb. rewrite Hconsec in Ef.
+      destruct (i_last s) as [l|] eqn:El; [|discriminate]. destruct (HL3 l eq_refl) as [HL4 HL5].
       destruct (k =? eh b) eqn:Ek; destruct (k <? eh b - W) eqn:E1; destruct (W <=? eh b) eqn:E2;
-        destruct (k =? eh b - W) eqn:E3; destruct (eh b <? k + W) eqn:E4; cbn [negb andb]; try reflexivity; try lia.
+        destruct (k =? eh b - W) eqn:E3; destruct (L <? k + W) eqn:E4; cbn [negb andb]; try reflexivity; try lia.
       all: destruct (aget k (i_h2b s)) as [x|] eqn:Ex; try reflexivity;
            destruct (Hold k x Ex) as [l' [Hl' [Hkl Hlk]]]; assert (l' = l) by congruence; subst l'; lia.
-    + rewrite Hd2, Hdb. unfold consec in Ef.
+    + rewrite Hd2, Hdb. rewrite Hconsec in Ef.
       destruct (k =? eh b) eqn:Ek; destruct (W <=? eh b) eqn:E2;
-        destruct (k =? eh b - W) eqn:E3; destruct (eh b <? k + W) eqn:E4; cbn [negb andb]; try reflexivity; try lia.
+        destruct (k =? eh b - W) eqn:E3; destruct (L <? k + W) eqn:E4; cbn [negb andb]; try reflexivity; try lia.
       all: destruct (aget k (i_h2b s)) as [x|] eqn:Ex; try reflexivity;
-           destruct (Hold k x Ex) as [l [Hl [Hkl Hlk]]]; rewrite Hl in Ef; specialize (Hmono l Hl);
+           destruct (Hold k x Ex) as [l [Hl [Hkl Hlk]]]; rewrite Hl in Ef; destruct (HL3 l Hl) as [HL4 HL5];
            destruct (eh b =? l + 1) eqn:E5; cbn [negb andb] in Ef; lia.
   - assert (NoDup (akeys (if W <=? eh b then adel (eh b - W) (aput (eh b) b (i_db s)) else aput (eh b) b (i_db s)))).
     { destruct (W <=? eh b); auto using nodup_adel, nodup_aput. }
     destruct (_ && _); auto using nodup_afilter.
+Qed.
+
+(* a notification below the window is ignored: the history grows by a block outside the window *)
+Lemma rep_notify_stale W U bs s b :
+  In b U -> stale s b = true -> Rep W U bs s -> Rep W U (bs ++ [b]) s.
+Proof.
+  intros HbU Hst Hr.
+  unfold stale in Hst. rewrite (r_W _ _ _ _ Hr) in Hst. destruct (i_last s) as [l|] eqn:El; [|discriminate].
+  apply andb_true_iff in Hst. destruct Hst as [Hst1 Hst2].
+  destruct Hr as [HW Hc Hsub Hh Hle Hlast Hdb Hnd].
+  constructor; auto.
+  - intros x Hx. apply in_app_or in Hx. destruct Hx as [Hx|[<-|[]]]; auto.
+  - intros k x. rewrite Hh. split.
+    + intros [Hx R]. split; [apply in_or_app; left; exact Hx | exact R].
+    + intros [Hx [Hxk [l' [Hl' [Hkl Hlk]]]]]. apply in_app_or in Hx. destruct Hx as [Hx|[<-|[]]].
+      * split; [exact Hx|]. split; [exact Hxk|]. exists l'. auto.
+      * exfalso. assert (l' = l) by congruence. subst l'. lia.
+  - intros x Hx. apply in_app_or in Hx. destruct Hx as [Hx|[<-|[]]]; [apply Hle; exact Hx|].
+    exists l. split; [exact El | lia].
+  - rewrite top_height_app, <- Hlast, El. unfold hmax. destruct (l <? eh b) eqn:E; [lia | reflexivity].
+Qed.
+
+Lemma rep_notify W U bs s b :
+  W <> 0 -> chain_wf U -> In b U -> Rep W U bs s -> Rep W U (bs ++ [b]) (notify s b).
+Proof.
+  intros HW0 Hwf HbU Hr. unfold notify. destruct (stale s b) eqn:Est.
+  - apply rep_notify_stale; assumption.
+  - apply rep_notify_live; auto.
 Qed.
 
 (* ------------------------------------------------------------------ reload on restart *)
@@ -377,7 +480,7 @@ Lemma rebuild_fold U W L : chain_wf U -> forall l c done,
   let c' := fold_left (fun c e => insert_cache c (snd e)) l c in
   Coh U c' /\ i_W c' = W /\ i_db c' = i_db c /\
   (forall k x, aget k (i_h2b c') = Some x <-> In (k, x) (done ++ l)) /\
-  i_last c' = match l with [] => i_last c | _ => Some (fst (last l (0, mkE 0 0 0 [] []))) end.
+  i_last c' = fold_left hmax (map (fun e => eh (snd e)) l) (i_last c).
 Proof.
   intros Hwf. induction l as [|e r IH]; intros c done HW Hc Hent Hdone Hlow; cbn zeta.
   - cbn [fold_left]. rewrite app_nil_r. auto.
@@ -405,7 +508,7 @@ Proof.
       subst e. cbn in *. exact He4.
     + split; [exact Ha|]. split; [exact Hb|]. split; [exact Hd|]. split.
       * intros k x. rewrite Hf, <- app_assoc. reflexivity.
-      * rewrite Hg. destruct r as [|e2 r']; [cbn; congruence | reflexivity].
+      * rewrite Hg. reflexivity.
 Qed.
 
 Lemma rep_restart W U bs s : W <> 0 -> chain_wf U -> Rep W U bs s ->
@@ -435,17 +538,16 @@ Proof.
         - intros H. apply Hent in H. exact H.
         - intros H. rewrite <- Hdb in H. apply aget_In. exact H. }
       (* last height *)
-      destruct (last_height_In bs L (eq_sym Hlast)) as [xL [HxL HxLh]].
+      destruct (top_height_In bs L (eq_sym Hlast)) as [xL [HxL HxLh]].
       assert (HL : aget L (i_h2b s) = Some xL) by (apply Hh; split; [exact HxL|]; split; [exact HxLh|]; exists L; split; [reflexivity | lia]).
       assert (HinL : In (L, xL) (sort_db (i_db s))) by (apply (proj2 (sort_db_In _ _)), aget_In; rewrite Hdb; exact HL).
       assert (Hlast1 : i_last s1 = Some L).
-      { rewrite Hg. destruct (sort_db (i_db s)) as [|e0 r0] eqn:Es; [destruct HinL|]. f_equal.
-        pose proof (sort_db_sorted (i_db s)) as Hss. rewrite Es in Hss.
-        pose proof (sorted_last_max _ (0, mkE 0 0 0 [] []) Hss (L, xL) HinL) as Hmax. cbn [fst] in Hmax.
-        assert (Hlastin : In (last (e0 :: r0) (0, mkE 0 0 0 [] [])) (i_db s)).
-        { apply (proj1 (sort_db_In _ _)). rewrite Es. clear. generalize e0. induction r0 as [|w r IH]; intros z0; [left; reflexivity|].
-          change (last (z0 :: w :: r) (0, mkE 0 0 0 [] [])) with (last (w :: r) (0, mkE 0 0 0 [] [])). right. apply IH. }
-        apply Hent in Hlastin. apply Hh in Hlastin. destruct Hlastin as [_ [_ [l [Hl [Hkl _]]]]]. injection Hl as <-. lia. }
+      { rewrite Hg. cbn [s0 i_last]. apply hmax_fold_spec.
+        - intros y Hy. apply in_map_iff in Hy. destruct Hy as [e [<- He]].
+          apply (proj1 (sort_db_In _ _)) in He. apply Hent in He. apply Hh in He.
+          destruct He as [_ [Hek [l [Hl [Hkl _]]]]]. injection Hl as <-. lia.
+        - discriminate.
+        - left. apply in_map_iff. exists (L, xL). split; [exact HxLh | exact HinL]. }
       rewrite Hlast1.
       assert (Hrep1 : forall d', (forall k, aget k d' = aget k (i_db s)) -> NoDup (akeys d') -> Rep W U bs (set_db s1 d')).
       { intros d' Hd' Hnd'. constructor; cbn [set_db i_W i_h2b i_last i_db i_id2h i_tx].
@@ -485,12 +587,6 @@ Fixpoint notifs (ops : list iop) : list eblock :=
   | IRestart _ :: r => notifs r
   end.
 
-Fixpoint monoL (last : option N) (bs : list eblock) : Prop :=
-  match bs with
-  | [] => True
-  | b :: r => (forall l, last = Some l -> l <= eh b) /\ monoL (Some (eh b)) r
-  end.
-
 Definition same_window (W : N) (ops : list iop) : Prop := forall W', In (IRestart W') ops -> W' = W.
 
 Lemma irun_cons s o ops : irun s (o :: ops) = irun (istep s o) ops.
@@ -501,30 +597,28 @@ Lemma notifs_app a b : notifs (a ++ b) = notifs a ++ notifs b.
 Proof. induction a as [|o a IH]; [reflexivity|]. destruct o; cbn [app notifs]; rewrite IH; reflexivity. Qed.
 
 Lemma rep_run W U : W <> 0 -> chain_wf U -> forall ops s bs,
-  Rep W U bs s -> incl (notifs ops) U -> same_window W ops -> monoL (i_last s) (notifs ops) ->
+  Rep W U bs s -> incl (notifs ops) U -> same_window W ops ->
   Rep W U (bs ++ notifs ops) (irun s ops).
 Proof.
-  intros HW0 Hwf. induction ops as [|o r IH]; intros s bs Hrep Hincl Hsw Hm.
+  intros HW0 Hwf. induction ops as [|o r IH]; intros s bs Hrep Hincl Hsw.
   - cbn [notifs irun fold_left]. rewrite app_nil_r. exact Hrep.
   - rewrite irun_cons. destruct o as [b|W']; cbn [notifs istep] in *.
-    + destruct Hm as [Hm1 Hm2].
-      replace (bs ++ b :: notifs r) with ((bs ++ [b]) ++ notifs r) by (rewrite <- app_assoc; reflexivity).
+    + replace (bs ++ b :: notifs r) with ((bs ++ [b]) ++ notifs r) by (rewrite <- app_assoc; reflexivity).
       assert (Hrep' : Rep W U (bs ++ [b]) (notify s b)).
       { apply rep_notify; auto. apply Hincl. left. reflexivity. }
-      apply IH; [exact Hrep' | | |].
+      apply IH; [exact Hrep' | |].
       * intros x Hx. apply Hincl. right. exact Hx.
       * intros W' H. apply Hsw. right. exact H.
-      * rewrite (r_last _ _ _ _ Hrep'), last_height_app. exact Hm2.
     + assert (W' = W) by (apply Hsw; left; reflexivity). subst W'.
       destruct (rep_restart W U bs s HW0 Hwf Hrep) as [Hrep' Hl].
-      apply IH; [exact Hrep' | exact Hincl | | rewrite Hl; exact Hm].
+      apply IH; [exact Hrep' | exact Hincl |].
       intros W' H. apply Hsw. right. exact H.
 Qed.
 
 Theorem rep_reach W U ops : W <> 0 -> chain_wf U -> incl (notifs ops) U -> same_window W ops ->
-  monoL None (notifs ops) -> Rep W U (notifs ops) (irun (init W) ops).
+  Rep W U (notifs ops) (irun (init W) ops).
 Proof.
-  intros HW0 Hwf Hincl Hsw Hm. apply (rep_run W U HW0 Hwf ops (init W) []); auto. apply rep_init.
+  intros HW0 Hwf Hincl Hsw. apply (rep_run W U HW0 Hwf ops (init W) []); auto. apply rep_init.
 Qed.
 
 (* ------------------------------------------------------------------ answers are determined by the history *)
@@ -532,11 +626,11 @@ Qed.
 Definition inwin (W : N) (last : option N) (h : N) : Prop := exists l, last = Some l /\ h <= l /\ l < h + W.
 
 Lemma rep_by_height W U bs s : Rep W U bs s -> forall h b,
-  get_by_height s h = Some b <-> In b bs /\ eh b = h /\ inwin W (last_height bs) h.
+  get_by_height s h = Some b <-> In b bs /\ eh b = h /\ inwin W (top_height bs) h.
 Proof. intros Hr h b. unfold get_by_height, inwin. rewrite <- (r_last _ _ _ _ Hr). apply (r_h2b _ _ _ _ Hr). Qed.
 
 Lemma rep_by_id W U bs s : chain_wf U -> Rep W U bs s -> forall i b,
-  get_block s i = Some b <-> In b bs /\ eid b = i /\ inwin W (last_height bs) (eh b).
+  get_block s i = Some b <-> In b bs /\ eid b = i /\ inwin W (top_height bs) (eh b).
 Proof.
   intros Hwf Hr i b. unfold get_block. pose proof (r_coh _ _ _ _ Hr) as Hc.
   destruct (aget i (i_id2h s)) as [h|] eqn:Ei.
@@ -552,7 +646,7 @@ Proof.
 Qed.
 
 Lemma rep_tx_found W U bs s : chain_wf U -> Rep W U bs s -> forall t b p,
-  In b bs -> inwin W (last_height bs) (eh b) -> nth_error (etxs b) p = Some t ->
+  In b bs -> inwin W (top_height bs) (eh b) -> nth_error (etxs b) p = Some t ->
   exists r, nth_error (eres b) p = Some r /\ get_tx s t = TxFound t (ets b) r.
 Proof.
   intros Hwf Hr t b p Hb Hw Hp. pose proof (r_coh _ _ _ _ Hr) as Hc.
@@ -567,7 +661,7 @@ Proof.
 Qed.
 
 Lemma rep_tx_none W U bs s : chain_wf U -> Rep W U bs s -> forall t,
-  (forall b, In b bs -> inwin W (last_height bs) (eh b) -> ~ In t (etxs b)) -> get_tx s t = TxNone.
+  (forall b, In b bs -> inwin W (top_height bs) (eh b) -> ~ In t (etxs b)) -> get_tx s t = TxNone.
 Proof.
   intros Hwf Hr t Hno. pose proof (r_coh _ _ _ _ Hr) as Hc. unfold get_tx.
   destruct (aget t (i_tx s)) as [[h idx]|] eqn:Et; [|reflexivity]. exfalso.
@@ -577,14 +671,14 @@ Proof.
 Qed.
 
 Lemma rep_latest W U bs s : W <> 0 -> Rep W U bs s ->
-  match last_height bs with
+  match top_height bs with
   | None => get_latest s = (1, None)
   | Some l => exists b, In b bs /\ eh b = l /\ get_latest s = (0, Some b)
   end.
 Proof.
   intros HW0 Hr. unfold get_latest. rewrite (r_last _ _ _ _ Hr).
-  destruct (last_height bs) as [l|] eqn:El; [|reflexivity].
-  destruct (last_height_In bs l El) as [b [Hb Hbl]]. exists b. split; [exact Hb|]. split; [exact Hbl|].
+  destruct (top_height bs) as [l|] eqn:El; [|reflexivity].
+  destruct (top_height_In bs l El) as [b [Hb Hbl]]. exists b. split; [exact Hb|]. split; [exact Hbl|].
   assert (get_by_height s l = Some b) as ->; [|reflexivity].
   apply (rep_by_height W U bs s Hr). split; [exact Hb|]. split; [exact Hbl|]. exists l. rewrite El. split; [reflexivity | lia].
 Qed.
@@ -609,11 +703,11 @@ Proof.
       - specialize (Hh h). unfold get_by_height in Hh. congruence. }
     unfold get_tx. rewrite Htx. destruct (aget t (i_tx s2)) as [[h idx]|]; [|reflexivity].
     specialize (Hh h). unfold get_by_height in Hh. rewrite Hh. reflexivity.
-  - unfold get_latest. rewrite (r_last _ _ _ _ H1), (r_last _ _ _ _ H2). destruct (last_height bs) as [l|]; [|reflexivity].
+  - unfold get_latest. rewrite (r_last _ _ _ _ H1), (r_last _ _ _ _ H2). destruct (top_height bs) as [l|]; [|reflexivity].
     rewrite (Hh l). reflexivity.
 Qed.
 
-Lemma rep_set_ext W U bs bs' s : Rep W U bs s -> (forall x, In x bs <-> In x bs') -> last_height bs = last_height bs' ->
+Lemma rep_set_ext W U bs bs' s : Rep W U bs s -> (forall x, In x bs <-> In x bs') -> top_height bs = top_height bs' ->
   Rep W U bs' s.
 Proof.
   intros [HW Hc Hsub Hh Hle Hlast Hdb Hnd] Hext Hl. constructor; auto.
@@ -625,20 +719,20 @@ Qed.
 
 (* ------------------------------------------------------------------ the three property statements *)
 Theorem window_answers W ops :
-  W <> 0 -> chain_wf (notifs ops) -> same_window W ops -> monoL None (notifs ops) ->
+  W <> 0 -> chain_wf (notifs ops) -> same_window W ops ->
   let s := irun (init W) ops in
   let bs := notifs ops in
-  (forall h b, get_by_height s h = Some b <-> In b bs /\ eh b = h /\ inwin W (last_height bs) h) /\
-  (forall i b, get_block s i = Some b <-> In b bs /\ eid b = i /\ inwin W (last_height bs) (eh b)) /\
-  (forall t b p, In b bs -> inwin W (last_height bs) (eh b) -> nth_error (etxs b) p = Some t ->
+  (forall h b, get_by_height s h = Some b <-> In b bs /\ eh b = h /\ inwin W (top_height bs) h) /\
+  (forall i b, get_block s i = Some b <-> In b bs /\ eid b = i /\ inwin W (top_height bs) (eh b)) /\
+  (forall t b p, In b bs -> inwin W (top_height bs) (eh b) -> nth_error (etxs b) p = Some t ->
      exists r, nth_error (eres b) p = Some r /\ get_tx s t = TxFound t (ets b) r) /\
-  (forall t, (forall b, In b bs -> inwin W (last_height bs) (eh b) -> ~ In t (etxs b)) -> get_tx s t = TxNone) /\
-  match last_height bs with
+  (forall t, (forall b, In b bs -> inwin W (top_height bs) (eh b) -> ~ In t (etxs b)) -> get_tx s t = TxNone) /\
+  match top_height bs with
   | None => get_latest s = (1, None)
   | Some l => exists b, In b bs /\ eh b = l /\ get_latest s = (0, Some b)
   end.
 Proof.
-  intros HW0 Hwf Hsw Hm s bs.
+  intros HW0 Hwf Hsw s bs.
   assert (Hr : Rep W bs bs s) by (apply rep_reach; auto using incl_refl).
   split; [apply (rep_by_height W bs bs s Hr)|]. split; [apply (rep_by_id W bs bs s Hwf Hr)|].
   split; [apply (rep_tx_found W bs bs s Hwf Hr)|]. split; [apply (rep_tx_none W bs bs s Hwf Hr)|].
@@ -646,10 +740,10 @@ Proof.
 Qed.
 
 Theorem restart_stable W ops1 ops2 :
-  W <> 0 -> chain_wf (notifs (ops1 ++ ops2)) -> same_window W (ops1 ++ ops2) -> monoL None (notifs (ops1 ++ ops2)) ->
+  W <> 0 -> chain_wf (notifs (ops1 ++ ops2)) -> same_window W (ops1 ++ ops2) ->
   answers_eq (irun (init W) (ops1 ++ IRestart W :: ops2)) (irun (init W) (ops1 ++ ops2)).
 Proof.
-  intros HW0 Hwf Hsw Hm.
+  intros HW0 Hwf Hsw.
   assert (Hn : notifs (ops1 ++ IRestart W :: ops2) = notifs (ops1 ++ ops2)) by (rewrite !notifs_app; reflexivity).
   apply (rep_answers_eq W (notifs (ops1 ++ ops2)) (notifs (ops1 ++ ops2))); auto.
   - rewrite <- Hn at 2. apply rep_reach; auto.
@@ -658,31 +752,88 @@ Proof.
       * apply Hsw. apply in_or_app. left. exact H.
       * congruence.
       * apply Hsw. apply in_or_app. right. exact H.
-    + rewrite Hn. exact Hm.
   - apply rep_reach; auto using incl_refl.
 Qed.
 
-Lemma monoL_snoc_again l : forall last b, monoL last (l ++ [b]) -> monoL last ((l ++ [b]) ++ [b]).
+Lemma top_height_absorb bs b : In b bs -> hmax (top_height bs) (eh b) = top_height bs.
 Proof.
-  induction l as [|x r IH]; intros last b H; cbn [app monoL] in *.
-  - destruct H as [H1 _]. split; [exact H1|]. split; [|exact I]. intros l Hl. injection Hl as <-. lia.
-  - destruct H as [H1 H2]. split; [exact H1|]. apply IH. exact H2.
+  intros Hb. destruct (top_height bs) as [m|] eqn:E.
+  - apply top_height_spec in E. destruct E as [_ Hall]. specialize (Hall b Hb). unfold hmax.
+    destruct (m <? eh b) eqn:E1; [lia | reflexivity].
+  - apply top_height_none in E. subst bs. destruct Hb.
 Qed.
 
-Theorem redelivery_idempotent W ops pre b :
-  W <> 0 -> notifs ops = pre ++ [b] -> chain_wf (notifs ops) -> same_window W ops -> monoL None (notifs ops) ->
+(* delivering ANY already notified block once more (the last one, or an older one) changes no answer *)
+Theorem redelivery_idempotent W ops b :
+  W <> 0 -> In b (notifs ops) -> chain_wf (notifs ops) -> same_window W ops ->
   answers_eq (irun (init W) (ops ++ [INotify b])) (irun (init W) ops).
 Proof.
-  intros HW0 Hlast Hwf Hsw Hm.
-  assert (Hb : In b (notifs ops)) by (rewrite Hlast; apply in_or_app; right; left; reflexivity).
+  intros HW0 Hb Hwf Hsw.
   apply (rep_answers_eq W (notifs ops) (notifs ops)); auto; [|apply rep_reach; auto using incl_refl].
   apply (rep_set_ext W (notifs ops) (notifs (ops ++ [INotify b]))).
   - apply rep_reach; auto.
     + rewrite notifs_app. cbn [notifs]. intros x Hx. apply in_app_or in Hx. destruct Hx as [Hx|[<-|[]]]; auto.
     + intros W' H. apply in_app_or in H. destruct H as [H|[H|[]]]; [apply Hsw; exact H | discriminate].
-    + rewrite notifs_app. cbn [notifs]. rewrite Hlast in Hm |- *. apply monoL_snoc_again. exact Hm.
   - intros x. rewrite notifs_app. cbn [notifs]. rewrite in_app_iff. cbn [In]. split; [intros [H|[<-|[]]]; auto | auto].
-  - rewrite notifs_app. cbn [notifs]. rewrite last_height_app, Hlast, last_height_app. reflexivity.
+  - rewrite notifs_app. cbn [notifs]. rewrite top_height_app. apply top_height_absorb. exact Hb.
+Qed.
+
+Lemma chain_wf_incl A B : incl A B -> chain_wf B -> chain_wf A.
+Proof.
+  intros Hi [H1 H2 H3 H4]. constructor.
+  - intros b1 b2 Ha Hb. apply H1; apply Hi; assumption.
+  - intros b1 b2 Ha Hb. apply H2; apply Hi; assumption.
+  - intros b1 b2 i1 i2 t Ha Hb. apply H3; apply Hi; assumption.
+  - intros b Hb. apply H4. apply Hi. exact Hb.
+Qed.
+
+(* the height GetLatestBlock reports *)
+Definition latest_height (s : ist) : option N :=
+  match snd (get_latest s) with Some b => Some (eh b) | None => None end.
+
+Lemma latest_height_top W ops :
+  W <> 0 -> chain_wf (notifs ops) -> same_window W ops ->
+  latest_height (irun (init W) ops) = top_height (notifs ops).
+Proof.
+  intros HW0 Hwf Hsw. destruct (window_answers W ops HW0 Hwf Hsw) as [_ [_ [_ [_ H]]]]. cbv zeta in H.
+  unfold latest_height. destruct (top_height (notifs ops)) as [l|].
+  - destruct H as [b [_ [Hbl ->]]]. cbn [snd]. congruence.
+  - rewrite H. reflexivity.
+Qed.
+
+(* the repaired defect, part 1: no notification (newer, repeated or older) moves GetLatestBlock backwards *)
+Theorem latest_monotone W ops b l :
+  W <> 0 -> chain_wf (notifs (ops ++ [INotify b])) -> same_window W ops ->
+  latest_height (irun (init W) ops) = Some l ->
+  exists l', latest_height (irun (init W) (ops ++ [INotify b])) = Some l' /\ l <= l' /\ eh b <= l'.
+Proof.
+  intros HW0 Hwf Hsw Hl.
+  assert (Hwf0 : chain_wf (notifs ops)).
+  { apply (chain_wf_incl _ (notifs (ops ++ [INotify b]))); [|exact Hwf].
+    rewrite notifs_app. intros x Hx. apply in_or_app. left. exact Hx. }
+  assert (Hsw1 : same_window W (ops ++ [INotify b])).
+  { intros W' H. apply in_app_or in H. destruct H as [H|[H|[]]]; [apply Hsw; exact H | discriminate]. }
+  rewrite (latest_height_top W ops HW0 Hwf0 Hsw) in Hl.
+  rewrite (latest_height_top W _ HW0 Hwf Hsw1), notifs_app. cbn [notifs]. rewrite top_height_app, Hl.
+  unfold hmax. destruct (l <? eh b) eqn:E; eexists; (split; [reflexivity | lia]).
+Qed.
+
+(* the repaired defect, part 2: at most W heights are served at any time *)
+Theorem served_at_most_window W ops (hs : list N) :
+  W <> 0 -> chain_wf (notifs ops) -> same_window W ops ->
+  NoDup hs -> (forall h, In h hs -> get_by_height (irun (init W) ops) h <> None) ->
+  N.of_nat (length hs) <= W.
+Proof.
+  intros HW0 Hwf Hsw Hnd Hserved.
+  destruct (window_answers W ops HW0 Hwf Hsw) as [Hh _]. cbv zeta in Hh.
+  destruct hs as [|h0 r] eqn:Ehs; [cbn; lia|]. rewrite <- Ehs in *.
+  assert (Hin0 : In h0 hs) by (rewrite Ehs; left; reflexivity).
+  destruct (get_by_height (irun (init W) ops) h0) as [b0|] eqn:E0; [|exfalso; apply (Hserved h0 Hin0); exact E0].
+  apply Hh in E0. destruct E0 as [_ [_ [L [HL _]]]].
+  assert (Hbound : forall h, In h hs -> (L + 1 - W) <= h /\ h < (L + 1 - W) + N.of_nat (N.to_nat W)).
+  { intros h Hin. destruct (get_by_height (irun (init W) ops) h) as [x|] eqn:E; [|exfalso; apply (Hserved h Hin); exact E].
+    apply Hh in E. destruct E as [_ [_ [L' [HL' [H1 H2]]]]]. assert (L' = L) by congruence. subst L'. lia. }
+  pose proof (NoDup_interval_length hs (L + 1 - W) (N.to_nat W) Hnd Hbound). lia.
 Qed.
 
 (* decidable well-formedness for the examples *)
